@@ -24,6 +24,7 @@ import (
 // Config selects the closed system a World runs.
 type Config struct {
 	MaxBranchDepth  int      `json:"max_branch_depth"`
+	LegacyPrefix    int      `json:"legacy_prefix,omitempty"`    // genesis start: storage holds G/a/a/... up to this height as a version-0 header file only; the first Load migrates it
 	Legacy          bool     `json:"legacy_files,omitempty"`     // with Base: storage holds the chain as version-0 header files only (Load migrates them)
 	Base            int      `json:"base,omitempty"`             // 0: start at genesis; n: start on a saved straight chain of height n
 	InitLoad        bool     `json:"init_load,omitempty"`        // start by Load from empty storage instead of InitializeWithGenesis
@@ -209,8 +210,24 @@ func NewWorld(cfg Config) (*World, error) {
 		w.Tree = ref.NewTree()
 		g := Genesis()
 		w.Tree.AddRoot(RH(g.Hash), 0, g.Header.Bits, ref.WorkForBits(g.Header.Bits), "G")
+		if cfg.LegacyPrefix > 0 {
+			buf := &bytes.Buffer{}
+			buf.WriteByte(0)
+			gh := g.Header.Copy()
+			gh.Serialize(buf)
+			label := "G"
+			for i := 0; i < cfg.LegacyPrefix; i++ {
+				label += "/a"
+				u := Get(label)
+				hc := u.Header.Copy()
+				hc.Serialize(buf)
+				w.Tree.Add(RH(u.Hash), RH(u.Header.PrevBlock), u.Header.Bits, u.Label)
+				w.Submitted[label] = true
+			}
+			w.Store.Write(w.Ctx, fmt.Sprintf("headers/%08x", 0), buf.Bytes(), nil)
+		}
 		w.Repo = w.NewRepo()
-		if cfg.InitLoad {
+		if cfg.InitLoad || cfg.LegacyPrefix > 0 {
 			if err, p := Safe(func() error { return w.Repo.Load(w.Ctx) }); err != nil || p != "" {
 				return nil, fmt.Errorf("initial load: %v %s", err, p)
 			}
@@ -591,8 +608,13 @@ func (w *World) Apply(op Op) *Step {
 		if err == nil && p == "" {
 			w.noteSaved()
 			w.restarts++
-			w.Repo = w.NewRepo()
-			w.Subs = nil // subscriptions belong to the old instance
+			if op.L == "same-instance" {
+				// Load is called again on the instance that just saved (nothing in the repository's
+				// contract reserves Load for a fresh value): it must end up as a fresh one would
+			} else {
+				w.Repo = w.NewRepo()
+				w.Subs = nil // subscriptions belong to the old instance
+			}
 			if w.restarts == 1 {
 				// hashes configured from this run on: refused when offered later (a header that is
 				// already held stays)
